@@ -5,7 +5,7 @@ CONSTANTS
  ExpKinds = {"all","none","r*"}
  ReKinds = {"none","r*"}
  Types = {"rules","templates"}
- MaxOps = 3
+ MaxOps = 2
  MaxDecl = 3
  NoCleanup = FALSE
 INIT InitRe
